@@ -45,6 +45,14 @@ def make_peers(tb, rnd, tier):
     add(['curve25519-sha256', 'diffie-hellman-group-exchange-sha256'], ['rsa-sha2-512', 'ssh-ed25519'], ['aes128-ctr'], ['hmac-sha2-256'],
         dict(ed, **rsa(['rsa-sha2-512', 'rsa-sha2-256', 'ssh-rsa'], 3072)), {'diffie-hellman-group-exchange-sha256': 3072})
     P[-1]['gex_style'] = 'strict'
+    # OpenSSH's own group selection (requests below 2048 are clamped, a range holding none of its moduli gets the built-in fallback group):
+    # the tool's follow-up probe is what measures these servers, and the policy records *that* size
+    # (3072 only: such a server answers every request its moduli cannot satisfy with a fallback group, so a 5120-bit modulus would be
+    # measured as 4096 - a limit of the measurement that C12 models, not a drift the policy could see)
+    for bits in (3072,):
+        add(['curve25519-sha256', 'diffie-hellman-group-exchange-sha256'], ['rsa-sha2-512', 'ssh-ed25519'], ['aes128-ctr'], ['hmac-sha2-256'],
+            dict(ed, **rsa(['rsa-sha2-512', 'rsa-sha2-256', 'ssh-rsa'], 3072)), {'diffie-hellman-group-exchange-sha256': bits})
+        P[-1]['gex_style'] = 'openssh'
     # servers that send SSH_MSG_DEBUG messages in front of their key-exchange replies
     add(['curve25519-sha256', 'diffie-hellman-group-exchange-sha256'], ['rsa-sha2-512', 'ssh-ed25519-cert-v01@openssh.com', 'ssh-ed25519'], ['aes128-ctr'], ['hmac-sha2-256'],
         dict(ed, **dict(rsa(['rsa-sha2-512', 'rsa-sha2-256', 'ssh-rsa'], 3072), **{'ssh-ed25519-cert-v01@openssh.com': {'size': 256, 'catype': 'ssh-rsa', 'casize': 4096}})),
